@@ -7,10 +7,10 @@ ALL = ["C%02d" % i for i in range(1, 21)]
 CHECKS = {
  "C12": dict(
   engine="metamorphic",
-  technique="metamorphic relation between two real `lian run` executions: P and edit(P) are analysed in their own forked children; call edges (call_paths_p3), source-level bindings (s2space_p1) and taint flows (taint_data_flow.json) are normalised to (file, line, name) terms and compared through the line/name maps of nine statically proven editors; generated Python/JavaScript programs are additionally executed under CPython/node; three recording wrappers classify observed differences by mechanism",
+  technique="metamorphic relation between two real `lian run` executions: P and edit(P) are analysed in their own forked children; call edges (call_paths_p3), source-level bindings (s2space_p1) and taint flows (taint_data_flow.json) are normalised to (file, line, name) terms and compared through the line/name maps of nine statically proven editors; generated Python/JavaScript programs are additionally executed under CPython/node; three recording wrappers classify observed differences by mechanism; multi-file generated bases (from lib import f, import lib, ES modules) so that move-to-file on an already-imported function, or two moves of the same function, create a re-export chain; Java and PHP class-hierarchy templates with inherited-method calls where the reorder edit may put a subclass before its superclass (Java permutations confirmed valid and behaviour-preserving with javac/java)",
   category="exploration",
   text="Edits: blank/comment lines, consistent rename of a local / parameter / function / class / method, no-op statement, reordering of independent top-level definitions, moving a function into another file and importing it; sequences of 1-3 edits. Every edit is proven meaning-preserving before use (Python: ast equality modulo the edit, symtable agreement for renames, no definition-time dependency for reorder/move; other languages: tree-sitter token sequences equal modulo the edit, no ERROR node) and generated Python/JavaScript pairs are executed and must behave identically (else dropped and counted). Bases: generated flow programs in Python and JavaScript, G-py programs with sinks, programs with an `import a, b` line, 8 hand templates (Java, Go, C, PHP, TypeScript, JavaScript), repo corpus files; every base is analysed twice and dropped if its two runs differ. A failing multi-edit pair is re-run with each single edit alone. Quick ~140 pairs from ~230 runs, thorough ~3140 pairs from ~4600 runs; floors on pairs per language/origin and on pairs with non-empty call edges / bindings / flows.",
-  note="Nothing is claimed beyond the generated, template and corpus programs; templates in five languages are not executed; results on inserted lines are excluded; absolute line correctness (C10) and the numbering of unresolved symbols are outside the relation. One open mechanism (P3 add_arg_to_param_edge matches state nodes by frame-local index) masks taint-flow differences only when the recorded argument->parameter edge sets of the two runs differ.",
+  note="Nothing is claimed beyond the generated, template and corpus programs; templates in five languages are not executed; results on inserted lines are excluded; absolute line correctness (C10) and the numbering of unresolved symbols are outside the relation. TypeScript and JavaScript classes are never permuted across an extends edge (class declarations are not hoisted there: node ReferenceError); PHP subclass-first validity rests on PHP's hoisting rule and is not executed; the `import lib; lib.f()` form yields no resolved call edge even in the base, so it is trivially invariant. One open mechanism (P3 add_arg_to_param_edge matches state nodes by frame-local index) masks taint-flow differences only when the recorded argument->parameter edge sets of the two runs differ.",
   design="DESIGN.md §C12"),
  "C07": dict(
   engine="runner",
@@ -93,15 +93,15 @@ CHECKS = {
   engine="girvm",
   technique="recording wrapper on analyze_reachable_symbols (union over all visits of the in-sets, per analysis frame) judged against dynamic last-definition events of validated executions and against a textbook reaching-definitions solver run on lian's own CFG and definition sets",
   category="exploration",
-  text="Intraprocedural def/use skeletons (3 variables; every nesting of if/else, while, counted for, for-in, do-while, break, continue, early return; Python and JavaScript; a third of the batches with --enable-p2) are analysed by real `semantic` runs while a wrapper records, per statement, the (symbol, defining statement) pairs of in_symbol_bits over all visits and the symbols the statement defines. Soundness: every use event of the reference executor (execution validated against CPython/node; loops taken 0 or 1 times; all decision vectors up to 32) must find its last definition in the recorded set. Precision: the recorded set must lie inside the may-reach solution of a 20-line worklist solver on lian's CFG/def sets, and equal it on loop-free methods. Floors: >=5000 recorded visits, >=3000 use events, >=100 statements visited more than once.",
-  note="Trusted: the reference executor's def/use events (validated per input against CPython/node outputs), the textbook solver. The observed object is the union over visits (the symbol graph accumulates edges the same way); CFG and def-use extraction faults belong to C04/C05. Loop headers are may-definitions of the loop variable.",
+  text="Intraprocedural def/use skeletons (3 variables; every nesting of if/else, while, counted for, for-in, do-while, break, continue, early return; Python, JavaScript, TypeScript, PHP and Go; a third of the batches with --enable-p2) are analysed by real `semantic` runs while a wrapper records, per statement, the (symbol, defining statement) pairs of in_symbol_bits over all visits and the symbols the statement defines. Soundness: every use event of the reference executor (execution validated against CPython/node; loops taken 0 or 1 times; all decision vectors up to 32) must find its last definition in the recorded set. Precision: the recorded set must lie inside the may-reach solution of a 20-line worklist solver on lian's CFG/def sets, and equal it on loop-free methods. Floors: >=5000 recorded visits, >=3000 use events, >=100 statements visited more than once.",
+  note="Trusted: the reference executor's def/use events (validated per input against CPython / node outputs; PHP and Go: node on the JavaScript twin of the same skeleton), the textbook solver. Per-language floors (>= 500 validated executions, >= 800 use events). The observed object is the union over visits (the symbol graph accumulates edges the same way); CFG and def-use extraction faults belong to C04/C05. Loop headers are may-definitions of the loop variable.",
   design="DESIGN.md §C06"),
  "C04": dict(
   engine="girvm",
-  technique="trace-containment monitor: per-activation statement traces of the reference executor (validated per input against CPython / node) checked against the CFG lian stores in semantic_p1/cfg.bundle*, over systematically enumerated and random control-flow skeletons x enumerated decision vectors",
+  technique="trace-containment monitor: per-activation statement traces of the reference executor, validated per input against a real engine (CPython; node for JavaScript and, same text, TypeScript; javac+java; gcc; for PHP and Go, which have no runtime here, node on the JavaScript rendering of the same skeleton with the same decision vector), checked against the CFG lian stores in semantic_p1/cfg.bundle*, over systematically enumerated and random control-flow skeletons x enumerated decision vectors, in seven frontends",
   category="exploration",
-  text="Control-flow skeletons (every outer x inner construct nesting in 4 positions with/without trailing statement, plus seeded random skeletons to depth 3, 4 in thorough) are rendered for Python, JavaScript, Java and C, analysed by real lang+P1 runs and executed on exhaustively enumerated decision vectors (<=48 per skeleton, sampled beyond; loops 0/1/2 iterations; raise/throw under a decision). Every consecutive statement pair of every activation must be a CFG edge, the first statement an entry node, every normal completion must reach the exit node, CFG nodes must belong to the method, continue must be wired inside its loop. An execution is used only if CPython / node / java / the gcc-built binary agree with the executor on that input. A wrapper counts which ControlFlowAnalysis handlers ran (a required set missing => inconclusive). Known unmodelled transfers are re-judged edge by edge, never exempting the rest of the trace.",
-  note="Trusted: CPython/node/java/gcc as ground truth for which simple statements execute; girvm's mapping of executions to GIR statement ids (loop headers appear at each test; only the selected case label of a switch is traced). Python, JavaScript, Java and C frontends (of seven); exceptions only from explicit raise/throw; a statement followed by itself needs no self edge; class member declarations may lie between a class declaration and its successor.",
+  text="Control-flow skeletons (every outer x inner construct nesting in 4 positions with/without trailing statement, plus seeded random skeletons to depth 3, 4 in thorough) are rendered for Python, JavaScript, TypeScript, Java, C, PHP and Go (per language only the constructs it can express with the meaning of the JavaScript rendering), analysed by real lang+P1 runs and executed on exhaustively enumerated decision vectors (<=48 per skeleton, sampled beyond; loops 0/1/2 iterations; raise/throw under a decision). Every consecutive statement pair of every activation must be a CFG edge, the first statement an entry node, every normal completion must reach the exit node, CFG nodes must belong to the method, continue must be wired inside its loop. An execution is used only if CPython / node / java / the gcc-built binary agree with the executor on that input. A wrapper counts which ControlFlowAnalysis handlers ran (a required set missing => inconclusive). Known unmodelled transfers are re-judged edge by edge, never exempting the rest of the trace.",
+  note="Trusted: CPython/node/java/gcc as ground truth for which simple statements execute; girvm's mapping of executions to GIR statement ids (loop headers appear at each test; only the selected case label of a switch is traced). Seven of eleven frontends (csharp cannot load here: empty csharp.so; ruby's GIR is outside the executor's vocabulary; llvm and smali have no structured source to render). PHP and Go ground truth is indirect (the JavaScript twin): trusted that the renderers of lib/gen_cf.py preserve meaning construct by construct. A failing pair is attributed to a tagged transfer, to a block column or operation the CFG builder does not read (cfg-does-not-read:<op>.<col>), else to the shape of the missing node or edge; per-language floors on programs, validated executions and activations. Exceptions only from explicit raise/throw; a statement followed by itself needs no self edge; class member declarations may lie between a class declaration and its successor.",
   design="DESIGN.md §C04"),
  "C01": dict(
   engine="girvm",
